@@ -80,6 +80,9 @@ impl<'a> Iterator for Params<'a> {
                     ));
                 }
                 self.input = rest;
+            } else if !rest.is_empty() {
+                // types bound by an earlier execute are reused; skip the new-params-bound flag
+                self.input = &rest[1..];
             }
         }
 
